@@ -21,6 +21,23 @@ def judge(ctx, ev):
             ctx.violation("C01.NoCrash", f"C01:crash:{e['typ']}", M.readable(e), case=M.readable(e))
 
 
+def indexed(ctx, n_sets):
+    """A match reported through the adapter index is a reported match too: same genuineness clause (Trace_Index.Sound)."""
+    from harness.props import C08
+    iev = C08.gen(ctx, n_sets, 12)
+    res = ctx.validate("Trace_Index", "Trace_Index.cfg", [{k: v for k, v in e.items() if k != "readable"} for e in iev])
+    byid = {e["id"]: e for e in iev}
+    for i, clauses in res.items():
+        e = byid[i]
+        for c in clauses:
+            if c.startswith("IndexedMatchSound"):
+                obs = dict(e["readable"], indexed=e["res"], other_orders=e["perms"])
+                kinds = "indels" if any(a["indels"] for a in e["ads"]) else "noindels"
+                ctx.violation("ReportedThroughIndexIsGenuine", f"C01:index:{'prefix' if e['prefix'] else 'suffix'}:{kinds}", obs, case=obs)
+    ctx.extra["indexed_events"] = len(iev)
+    ctx.extra["indexed_events_found"] = sum(1 for e in iev if e["res"]["found"])
+
+
 def run(ctx):
     ctx.mc("MC_AdapterMatch", "MC_AdapterMatch.cfg" if ctx.quick else "MC_AdapterMatch_thorough.cfg",
            workers=12, timeout=3000)
@@ -32,6 +49,7 @@ def run(ctx):
         if ctx.quick and i % 3:          # the transcription is compared on a third of the events in the quick tier
             e["want"] = ["C01"]
     judge(ctx, ev)
+    indexed(ctx, 60 if ctx.quick else 1500)
     M.stats(ctx, ev)
     n_alg = sum(1 for e in ev if "ALG" in e["want"])
     ctx.extra["alg_events_compared"] = n_alg
@@ -46,6 +64,14 @@ def run(ctx):
 def replay(ctx, path):
     rp = json.load(open(path))
     e = rp["observation"]
+    if "indexed" in e:
+        from harness.props import C08
+        ne = C08.reobserve(dict(kind=e["kind"], read=e["read"], adapters=e["adapters"]))
+        res = ctx.validate("Trace_Index", "Trace_Index.cfg", [{k: v for k, v in ne.items() if k != "readable"}])
+        for c in res.get(0, []):
+            if c.startswith("IndexedMatchSound"):
+                ctx.violation("ReportedThroughIndexIsGenuine", rp["signature"], dict(ne["readable"], indexed=ne["res"], other_orders=ne["perms"]))
+        return
     cfg = G.make_config(e["typ"], e["adapter"], __import__("fractions").Fraction(e["num"], e["den"]), e["ovl"],
                         aw_req=e["aw"] or all(c in "ACGT" for c in e["adapter"]), rw=e["rw"], indels=e["indels"])
     ne = G.observe(cfg, e["read"], ["C01"])
